@@ -67,8 +67,9 @@ class Parser:
         self.tokens = tokens
         self.builtins = builtins
         self.pos = 0
-        assert tokens
-        self.eof = Token(TokenKind.EOI, "", -1, tokens[-1].grammar)
+        # An empty or comment-only grammar has no tokens (and no rules).
+        grammar = tokens[-1].grammar if tokens else ""
+        self.eof = Token(TokenKind.EOI, "", -1, grammar)
 
     def current(self) -> Token:
         try:
